@@ -940,10 +940,6 @@ func TestC04(t *testing.T) {
 		sigs = append(sigs, s)
 	}
 	sort.Strings(sigs)
-	for _, s := range sigs {
-		si := total.Sigs[s]
-		rep.ViolationN(s, map[string]any{"index": si.FirstIndex, "detail": si.First.Detail}, si.Count)
-	}
 
 	outcomes := make([]string, 0, len(total.Outcomes))
 	for o := range total.Outcomes {
@@ -957,13 +953,32 @@ func TestC04(t *testing.T) {
 		}
 	}
 	if replayCase != "" {
+		// a replay re-runs one stored case five times and reports what it sees; it writes no evidence file
 		for _, o := range outcomes {
-			fmt.Printf("REPLAY property=C04 outcome=%s\n", o)
+			fmt.Printf("REPLAY property=C04 outcome=%s runs=%d\n", o, total.Outcomes[o])
+		}
+		for _, e := range append(errs, total.EngineErrors...) {
+			fmt.Printf("ENGINE-ERROR: property=C04 %s\n", e)
+			ev.ExitCode = 2
 		}
 		for _, s := range sigs {
 			b, _ := json.Marshal(total.Sigs[s].First.Detail)
-			fmt.Printf("REPLAY property=C04 violation=%s detail=%s\n", s, b)
+			fmt.Printf("REPLAY property=C04 detail=%s\n", b)
+			if rep.IsKnown(s) {
+				fmt.Printf("KNOWN-FINDING: property=C04 signature=%s runs=%d\n", s, total.Sigs[s].Count)
+				continue
+			}
+			fmt.Printf("VIOLATION property=C04 replay=%s signature=%s runs=%d\n", os.Getenv("VERIF_REPLAY"), s, total.Sigs[s].Count)
+			if ev.ExitCode == 0 {
+				ev.ExitCode = 1
+			}
 		}
+		fmt.Printf("RESULT property=C04 replay violations=%d\n", len(sigs))
+		return
+	}
+	for _, s := range sigs {
+		si := total.Sigs[s]
+		rep.ViolationN(s, map[string]any{"index": si.FirstIndex, "detail": si.First.Detail}, si.Count)
 	}
 	b := theBound()
 	rep.Coverage["evaluations"] = total.Evaluations
